@@ -378,6 +378,14 @@ CORPUS = [
                                   "/app/data/notes.txt": "EMPTY", "/app/w.bin": "WS"}, "/app/main.arrai"),
     ("zero-length-nested-sentinel", {"/app/go.mod": "module example.com/app\n", "/app/main.arrai": [{"root": False, "path": "/sub/x", "dec": False}, {"root": True, "path": "/util", "dec": False}],
                                      "/app/util.arrai": [], "/app/sub/go.mod": "", "/app/sub/x.arrai": [{"root": True, "path": "/util", "dec": False}], "/app/sub/util.arrai": []}, "/app/main.arrai"),
+    # a nested module next to a sibling directory whose NAME merely starts with the module directory's name: a root import
+    # from the sibling belongs to the outer module (containment is by path components, not by string prefix)
+    ("nested-module-prefix-sibling", {"/t/go.mod": "module ex.com/t\n", "/t/main.arrai": [{"root": False, "path": "/lib/a", "dec": False}, {"root": False, "path": "/libs/b", "dec": False}],
+                                      "/t/lib/go.mod": "module ex.com/t/lib\n", "/t/lib/a.arrai": [{"root": True, "path": "/x", "dec": False}], "/t/lib/x.arrai": [],
+                                      "/t/libs/b.arrai": [{"root": True, "path": "/x", "dec": False}], "/t/x.arrai": []}, "/t/main.arrai"),
+    ("nested-module-prefix-sibling-2", {"/t/go.mod": "module ex.com/t\n", "/t/main.arrai": [{"root": False, "path": "/v1/a", "dec": False}, {"root": False, "path": "/v10/b", "dec": False}],
+                                        "/t/v1/go.mod": "module ex.com/t/v1\n", "/t/v1/a.arrai": [{"root": True, "path": "/y", "dec": False}], "/t/v1/y.arrai": [],
+                                        "/t/v10/b.arrai": [{"root": True, "path": "/y", "dec": False}], "/t/y.arrai": []}, "/t/main.arrai"),
     ("nested-in-module", {"/r/go.mod": "module m\n", "/r/main.arrai": [{"root": False, "path": "/n/x", "dec": False}], "/r/n/go.mod": "module n\n",
                           "/r/n/x.arrai": [{"root": True, "path": "/y", "dec": False}], "/r/n/y.arrai": [], "/r/y.arrai": []}, "/r/main.arrai"),
 ]
